@@ -224,7 +224,13 @@ class Sc:
                     authors = {str(self.ghost.get(norm(ls[k]), "?")) for k in range(lo, hi + 1)}
                     self.failures.append((sig, {"where": where, "path": p, "line": i, "text": t, "want": g, "have": have,
                                                 "block_authors": sorted(authors), "mixed_block": len(authors) > 1,
+                                                "rewritten_later_by_have": bool(have) and self.later_version_by(t, have),
                                                 "log": self.log[-10:]}))
+
+    def later_version_by(self, text, have_hash):
+        """some later version `<text> m<k>…` of this line was written by the session blame reports"""
+        pre = norm(text) + "m"
+        return any(k.startswith(pre) and g and S.hash_of(g) == have_hash for k, g in self.ghost.items())
 
     def is_human_tweak_of(self, text, have_hash):
         """`text` is `<old line> m<k>`: a person's in-place modification of a line that session wrote"""
@@ -651,6 +657,8 @@ def full_sig(fam, sig, d):
         return sig
     if fam.split("+tail-")[0] in REPLAY_FAMILIES and d.get("mixed_block"):
         return f"{fam}:{sig}:in-block-of-several-authors"
+    if fam.split("+tail-")[0] in REPLAY_FAMILIES and d.get("rewritten_later_by_have"):
+        return f"{fam}:{sig}:line-rewritten-by-a-later-commit-of-the-range"
     return f"{fam}:{sig}"
 
 
